@@ -171,6 +171,33 @@ def native_run(fset, profile, entry, inputs, events=False, timeout=60):
     return dict(status=status, code=p.returncode, detail=detail, events=evs, stderr=p.stderr[-500:])
 
 
+def run_kani(harnesses):
+    """E2: Kani/CBMC on the heap-free kernels; returns {harness: 'SUCCESSFUL' | 'FAILED' | 'missing'} and the wall time"""
+    t0 = time.time()
+    env = dict(os.environ)
+    env['CARGO_NET_OFFLINE'] = 'true'
+    cmd = ['cargo', 'kani', '--target-dir', os.path.join(BUILD, 'kani')]
+    for h in harnesses:
+        cmd += ['--harness', h]
+    try:
+        p = subprocess.run(cmd, cwd=os.path.join(ROOT, 'kani'), env=env, stdout=subprocess.PIPE, stderr=subprocess.STDOUT, timeout=1500)
+        out = p.stdout.decode('utf-8', 'replace')
+    except subprocess.TimeoutExpired:
+        return {h: 'timeout' for h in harnesses}, time.time() - t0
+    res = {}
+    cur = None
+    for line in out.splitlines():
+        if line.startswith('Checking harness '):
+            cur = line[len('Checking harness '):].rstrip('.').split('::')[-1]
+        elif line.startswith('VERIFICATION:- ') and cur:
+            res[cur] = line[len('VERIFICATION:- '):].strip()
+    for h in harnesses:
+        res.setdefault(h, 'missing')
+    if any(v != 'SUCCESSFUL' for v in res.values()):
+        log(out[-3000:])
+    return res, time.time() - t0
+
+
 def sha256(path):
     return hashlib.sha256(open(path, 'rb').read()).hexdigest()
 
@@ -310,6 +337,17 @@ def run_property(pid, tier, seed):
             inconclusive.append("time budget of %ds exhausted before all runs were started" % budget_s)
             status = max(status, 2)
             break
+    # ---- E2 (second opinion on the kernels)
+    kani_res = None
+    if spec.get('kani') and status != 2 and time.time() < deadline:
+        kani_res, kt = run_kani(spec['kani'])
+        log("[kani] %s in %.1fs" % (kani_res, kt))
+        bad = [h for h, v in kani_res.items() if v != 'SUCCESSFUL']
+        if bad and not violations_out:
+            # E1 runs the same kernel obligations: a disagreement between the two engines is never reported as a pass
+            inconclusive.append("Kani does not verify %s although llsym found no counterexample" % bad)
+            status = max(status, 2)
+        kani_res = dict(results=kani_res, wall_s=round(kt, 1), bounds="full bit-width; adjust: threshold 100, allocated < 2^40, unwind 44")
     # ---- verdict
     for kf, v in known_hits:
         print("KNOWN-FINDING: property=%s %s" % (pid, kf['what']))
@@ -320,7 +358,7 @@ def run_property(pid, tier, seed):
         status = 1
     for m in inconclusive:
         print("INCONCLUSIVE: " + m)
-    write_evidence(pid, tier, seed, spec, results, ir_files, validated, len(violations_out), inconclusive, time.time() - t_start, known_hits)
+    write_evidence(pid, tier, seed, spec, results, ir_files, validated, len(violations_out), inconclusive, time.time() - t_start, known_hits, kani_res)
     tot_paths = sum(d['paths'] for d in results)
     print("%s %s: runs=%d paths=%d queries=%d violations=%d known=%d validated-natively=%d wall=%.1fs -> exit %d" % (
         pid, tier, len(results), tot_paths, sum(d['queries'] for d in results), len(violations_out), len(known_hits), validated,
@@ -328,7 +366,7 @@ def run_property(pid, tier, seed):
     return status
 
 
-def write_evidence(pid, tier, seed, spec, results, ir_files, validated, nviol, inconclusive, wall, known_hits):
+def write_evidence(pid, tier, seed, spec, results, ir_files, validated, nviol, inconclusive, wall, known_hits, kani_res=None):
     fn = {}
     for d in results:
         for k, v in d['fn_hits'].items():
@@ -373,6 +411,7 @@ def write_evidence(pid, tier, seed, spec, results, ir_files, validated, nviol, i
             functions_executed=len(fns),
             inconclusive=inconclusive,
             known_findings_hit=[k['what'] for k, v in known_hits],
+            kani_second_opinion=kani_res,
         ),
         assumptions=list(lext.STUBS_DOC) + spec.get('assumptions', []),
         wall_s=round(wall, 1),
